@@ -173,6 +173,11 @@ static void c07_zone(const ZI* zi, bool extended, long long nrandom, Rng& rng) {
     int64_t L = rng.range(LO + 2 * 86400, HI - 2 * 86400);
     check_local(zi->name, extended, tz, priv, trs, L, "random");
   }
+  // the first and the last two days of the supported years, as the zone's own wall clock shows them (east of UTC the
+  // instants of local 2000-01-01 lie in 1999 UTC, west of UTC those of local 2049-12-31 lie in 2050 UTC)
+  for (int64_t L = LO; L < LO + 2 * 86400; L += 1800 + 59) check_local(zi->name, extended, tz, priv, trs, L, "first-days");
+  for (int64_t L = HI - 2 * 86400; L < HI; L += 1800 + 59) check_local(zi->name, extended, tz, priv, trs, L, "last-days");
+  CNT.add("local.range_edge_days_zones");
   if (!trs.empty() && CNT.c["local.zones"] <= 2) { J j; j.str("zone", zi->name).num("transitions", (long long) trs.size()).num("first_T", trs[0].T).num("o1", trs[0].o1).num("o2", trs[0].o2); sample(j); }
   delete a; delete b;
 }
